@@ -207,14 +207,14 @@ def accessor_cell(P, A):
         body.append(T('p', None))
         st = STAMPS[1] if P.get('started', [None] * N)[i] else None
         stories.append(E('story', T('storyID', ids[i]), opt(has_slug, T('storySlug', slug)),
-                         timing(variants[i], 10 * (i + 1), 3, 4, started=st), *body))
+                         timing(variants[i], 10 * i, 3 * i, 4 * i, started=st), *body))
         spec.append({'id': ids[i], 'slug': slug if has_slug else None,
                      'items': [iid] + (['second'] if has_item2 else []),
                      'item1': {'slug': slug if f('isl%d' % i) else None, 'obj': obj if f('io%d' % i) else None,
                                'mos': 'mos.x' if f('im%d' % i) else None,
                                'type': 'VIDEO' if f('ity%d' % i) else None,
                                'note': note_t if f('in%d' % i) else None},
-                     'duration': spec_duration(variants[i], 10 * (i + 1), 3, 4)})
+                     'duration': spec_duration(variants[i], 10 * i, 3 * i, 4 * i)})
     ed = P.get('edstart', 'present')
     ro = B.running_order(stories, lead=3 if ed != 'absent' else 2, edstart=STAMPS[0] if ed == 'present' else None,
                          gap=P.get('gap'), trail=P.get('trail', 0))
@@ -270,6 +270,10 @@ def accessor_cell(P, A):
                 sig = 'story-duration'
             elif 'item1' in s and any(not same(g['item1'][k], s['item1'][k]) for k in s['item1']):
                 sig = 'item-field'
+            elif g['start'] is not None and g['duration'] is not None and g['end_explicit'] is False and \
+                    not same(g['end'], g['start'] + timedelta(seconds=g['duration'])):
+                # start and duration are in the document (a zero duration is a duration): so is the end
+                sig = 'story-end-differs-from-start-plus-duration'
             if sig:
                 break
     if sig is None:
@@ -298,7 +302,8 @@ def observe_all(ro):
         items = s.items
         d = {'id': s.id, 'slug': s.slug, 'items': [i.id for i in items], 'duration': s.duration,
              'offset': s.offset, 'start': s.start_time, 'end': s.end_time, 'script': s.script,
-             'body': s.body, 'xml': s.xml}
+             'body': s.body, 'xml': s.xml,
+             'end_explicit': s.xml.find('mosExternalMetadata/mosPayload/StoryEnded') is not None}
         if items:
             i = items[0]
             d['item1'] = {'slug': i.slug, 'obj': i.object_id, 'mos': i.mos_id, 'type': i.type, 'note': i.note}
